@@ -8,7 +8,7 @@
 //! histories of client calls on two documents and checks every reply, `status()` after every step
 //! and the full content now and then (reads commit the write batch, so not always).
 //!
-//! The workload serves three properties; a run judges only the clauses of its own (`ctx.prop`):
+//! The workload serves five properties; a run judges only the clauses of its own (`ctx.prop`):
 //!  * **C14** — open/close counting as the client sees it (`status().handles` = live client handles
 //!    + one while the node syncs the document), the sync switch, gating of every call on "open",
 //!    replies that reflect all earlier requests (writes, deletions, authors deleted and imported);
@@ -18,6 +18,11 @@
 //!  * **C16** — `drop_doc` is refused while another handle holds the document and then changes
 //!    nothing; after a successful drop every stale handle fails, the document is not listed, and a
 //!    re-import is empty.
+//!  * **C12** — on every event subscription of the client: behind an accepted write, exactly the
+//!    accepted local writes since the subscription began, in order; when `drop_doc` ends the stream, a
+//!    prefix of them;
+//!  * **C15** — a policy set through a handle is read back until another is set or the document is
+//!    dropped (then the default); setting one for a document the node does not have is refused.
 //! A mismatch that belongs to another property is counted, not reported; the history goes on.
 
 use std::collections::BTreeMap;
@@ -64,7 +69,9 @@ struct DocM {
     held: Vec<Doc>,
     /// handles whose `close()` was called (every call through them must be refused by the client)
     closed: Vec<Doc>,
-    streams: Vec<Box<dyn std::any::Any + Send>>,
+    streams: Vec<Sub>,
+    /// last policy set successfully (None: never set since the document came to this node)
+    policy: Option<iroh_docs::store::DownloadPolicy>,
     /// Subscriptions whose receiving end is gone or going (every `drop_doc`, refused or not, ends the
     /// event streams of the document: `kill_subscribers`). The replica forgets such a subscriber when
     /// it next fails to deliver to it, so until observed the count may or may not include them.
@@ -79,6 +86,9 @@ impl DocM {
                 self.sync = false;
                 self.subs = 0;
                 self.zombies = 0;
+                for sub in self.streams.iter_mut() {
+                    sub.frozen = true;
+                }
             }
         }
     }
@@ -87,6 +97,50 @@ impl DocM {
         self.sync |= sync;
         self.subs += sub as usize;
     }
+}
+
+/// One event subscription of the client: what arrived, and the local writes accepted since it began.
+struct Sub {
+    got: std::sync::Arc<std::sync::Mutex<Vec<String>>>,
+    task: tokio::task::JoinHandle<()>,
+    expected: Vec<String>,
+    /// the document was closed at the actor meanwhile (last handle given back): the replica has
+    /// dropped this subscription, later writes are not announced on it
+    frozen: bool,
+}
+
+fn spawn_sub<S>(stream: S) -> Sub
+where
+    S: n0_future::Stream<Item = anyhow::Result<iroh_docs::engine::LiveEvent>> + Send + 'static,
+{
+    let got = std::sync::Arc::new(std::sync::Mutex::new(Vec::new()));
+    let g2 = got.clone();
+    let task = tokio::spawn(async move {
+        tokio::pin!(stream);
+        while let Some(ev) = stream.next().await {
+            if let Ok(iroh_docs::engine::LiveEvent::InsertLocal { entry }) = ev {
+                let e = E { author: entry.author().to_bytes(), key: entry.key().to_vec(), ts: entry.timestamp(), hash: *entry.content_hash().as_bytes(), len: entry.content_len() };
+                g2.lock().unwrap().push(e.short());
+            } else if let Ok(iroh_docs::engine::LiveEvent::InsertRemote { .. }) = ev {
+                g2.lock().unwrap().push("remote-insert-on-a-node-without-peers".to_string());
+            }
+        }
+    });
+    Sub { got, task, expected: vec![], frozen: false }
+}
+
+/// Wait (bounded) for the event of the last accepted write; everything before it has then been
+/// delivered on the same ordered stream. None = it did not arrive in time (inconclusive).
+async fn fence(sub: &Sub) -> Option<Result<(), (Vec<String>, Vec<String>)>> {
+    let Some(last) = sub.expected.last() else { return Some(Ok(())) };
+    for _ in 0..2000 {
+        let got = sub.got.lock().unwrap().clone();
+        if got.len() >= sub.expected.len() || got.last() == Some(last) {
+            return Some(if got == sub.expected { Ok(()) } else { Err((got, sub.expected.clone())) });
+        }
+        tokio::time::sleep(std::time::Duration::from_millis(10)).await;
+    }
+    None
 }
 
 struct Node {
@@ -141,6 +195,8 @@ fn owner(tag: &str) -> &'static str {
     match tag {
         "cap" => "C07",
         "drop" => "C16",
+        "events" => "C12",
+        "policy" => "C15",
         _ => "C14",
     }
 }
@@ -171,7 +227,7 @@ async fn one(ctx: &mut Ctx, case: u64, rng: &mut Rng, node: &Node) {
     let unis = [Universe::with(mk_secret(0), 3), Universe::with(mk_secret(1), 3)];
     let t0 = unis[0].t0;
     let mut docs: Vec<DocM> = (0..2)
-        .map(|i| DocM { secret: mk_secret(i), cap: Cap::None, handles: 0, sync: false, subs: 0, syncing: false, entries: Model::new(), held: vec![], closed: vec![], streams: vec![], zombies: 0 })
+        .map(|i| DocM { secret: mk_secret(i), cap: Cap::None, handles: 0, sync: false, subs: 0, syncing: false, entries: Model::new(), held: vec![], closed: vec![], streams: vec![], zombies: 0, policy: None })
         .collect();
     // the three authors of the universe; which of them the node's store knows
     let mut known = [false; 3];
@@ -223,6 +279,7 @@ async fn one(ctx: &mut Ctx, case: u64, rng: &mut Rng, node: &Node) {
         let t = t0 + rng.below(8) as u64;
         iroh_docs::verif::set_clock(t);
         let have_handle = !docs[di].held.is_empty();
+        let mut wrote = false;
         match op {
             // ---- import read-only / writable (import + open, returns a handle)
             0..=11 => {
@@ -303,6 +360,11 @@ async fn one(ctx: &mut Ctx, case: u64, rng: &mut Rng, node: &Node) {
                             if *h != content(ci).0 {
                                 mismatch!("reply", "set-returned-another-hash", json!({}));
                             }
+                            let ev = E::of(&uni.entry(a, &k, t, Some(ci))).short();
+                            for sub in m.streams.iter_mut().filter(|s| !s.frozen) {
+                                sub.expected.push(ev.clone());
+                            }
+                            wrote = true;
                         }
                         (Err(_), false) => refused += 1,
                         (Ok(_), false) => mismatch!(if m.cap != Cap::Write { "cap" } else { "reply" }, if m.cap != Cap::Write { "write-accepted-without-write-capability" } else { "write-accepted-that-the-specification-refuses" }, json!({"handles": m.handles, "author_known": known[a]})),
@@ -313,7 +375,13 @@ async fn one(ctx: &mut Ctx, case: u64, rng: &mut Rng, node: &Node) {
                     let r = d.del(uni.authors[a].id(), k.clone()).await;
                     let want = if allowed { m.entries.offer(&uni.entry(a, &k, t, None)) } else { None };
                     match (&r, want) {
-                        (Ok(n), Some(w)) if *n == w => {}
+                        (Ok(n), Some(w)) if *n == w => {
+                            let ev = E::of(&uni.entry(a, &k, t, None)).short();
+                            for sub in m.streams.iter_mut().filter(|s| !s.frozen) {
+                                sub.expected.push(ev.clone());
+                            }
+                            wrote = true;
+                        }
                         (Err(_), None) => refused += 1,
                         (Ok(n), Some(w)) => mismatch!("reply", "del-reports-another-count", json!({"got": n, "want": w})),
                         (Ok(_), None) => mismatch!(if m.cap != Cap::Write { "cap" } else { "reply" }, if m.cap != Cap::Write { "deletion-accepted-without-write-capability" } else { "deletion-accepted-that-the-specification-refuses" }, json!({})),
@@ -374,7 +442,7 @@ async fn one(ctx: &mut Ctx, case: u64, rng: &mut Rng, node: &Node) {
                 }
             }
             // ---- subscribe (the stream is kept to the end of the history)
-            73..=76 if have_handle => {
+            73..=78 if have_handle => {
                 let d = docs[di].held[0].clone();
                 trace.push(format!("{step}: doc{di} subscribe"));
                 let r = d.subscribe().await;
@@ -382,7 +450,7 @@ async fn one(ctx: &mut Ctx, case: u64, rng: &mut Rng, node: &Node) {
                 match (r, m.handles > 0) {
                     (Ok(s), true) => {
                         m.subs += 1;
-                        m.streams.push(Box::new(Box::pin(s)));
+                        m.streams.push(spawn_sub(s));
                     }
                     (Err(_), false) => refused += 1,
                     (Ok(s), false) => {
@@ -402,13 +470,33 @@ async fn one(ctx: &mut Ctx, case: u64, rng: &mut Rng, node: &Node) {
                 }
             }
             // ---- drop the document
-            77..=83 => {
+            79..=83 => {
                 trace.push(format!("{step}: doc{di} drop_doc (actor handles {}, syncing {})", docs[di].handles, docs[di].syncing));
                 let before = if docs[di].handles > 1 + docs[di].syncing as usize && have_handle { dump(&docs[di].held[0]).await.ok() } else { None };
                 let r = api.drop_doc(id).await;
                 let m = &mut docs[di];
                 m.zombies += m.streams.len();
-                m.streams.clear();
+                // the streams end here (kill_subscribers); what arrived on each is a prefix of the
+                // writes accepted since it began: no event twice, none out of order, none foreign
+                let subs: Vec<Sub> = m.streams.drain(..).collect();
+                let mut bad = None;
+                for sub in subs {
+                    if sub.frozen {
+                        sub.task.abort();
+                    } else if tokio::time::timeout(std::time::Duration::from_secs(20), sub.task).await.is_err() {
+                        ctx.count("event_streams_that_did_not_end_after_drop_doc(not judged)", 1);
+                        continue;
+                    }
+                    let got = sub.got.lock().unwrap().clone();
+                    ctx.count("event_streams_compared_with_the_accepted_writes", 1);
+                    ctx.count("client_events_seen", got.len() as u64);
+                    if got.len() > sub.expected.len() || got[..] != sub.expected[..got.len()] {
+                        bad = Some((got, sub.expected));
+                    }
+                }
+                if let Some((got, want)) = bad {
+                    mismatch!("events", "events-of-a-subscription-are-not-the-accepted-writes-in-order", json!({"got": got, "accepted_writes_since_the_subscription": want}));
+                }
                 // the engine leaves first (live handle released, live subscribers dropped), then the
                 // actor releases one handle and refuses if the document is still open
                 if m.syncing {
@@ -426,6 +514,7 @@ async fn one(ctx: &mut Ctx, case: u64, rng: &mut Rng, node: &Node) {
                         drops_ok += (m.cap != Cap::None) as u32;
                         m.cap = Cap::None;
                         m.entries = Model::new();
+                        m.policy = None;
                         // every handle of the old document is stale now; they stay usable objects and
                         // come back to life with a re-import, like any handle of a closed document
                     }
@@ -494,6 +583,29 @@ async fn one(ctx: &mut Ctx, case: u64, rng: &mut Rng, node: &Node) {
                     }
                 }
             }
+            // ---- download policy through a handle
+            93 | 94 if have_handle => {
+                use iroh_docs::store::{DownloadPolicy, FilterKind};
+                let d = docs[di].held[0].clone();
+                let m = &mut docs[di];
+                if rng.chance(1, 2) {
+                    let f: Vec<FilterKind> = (0..rng.below(3)).map(|i| if rng.chance(1, 2) { FilterKind::Prefix(vec![b'a' + i as u8].into()) } else { FilterKind::Exact(vec![0xFF, i as u8].into()) }).collect();
+                    let p = if rng.chance(1, 2) { DownloadPolicy::NothingExcept(f) } else { DownloadPolicy::EverythingExcept(f) };
+                    trace.push(format!("{step}: doc{di} set_download_policy {p:?}"));
+                    match (d.set_download_policy(p.clone()).await, m.cap != Cap::None) {
+                        (Ok(()), true) => m.policy = Some(p),
+                        (Err(_), false) => refused += 1,
+                        (Ok(()), false) => mismatch!("policy", "policy-set-for-a-document-the-node-does-not-have", json!({})),
+                        (Err(e), true) => mismatch!("policy", "policy-set-refused-for-a-held-document", format!("{e:?}")),
+                    }
+                } else if m.cap != Cap::None {
+                    trace.push(format!("{step}: doc{di} get_download_policy"));
+                    match d.get_download_policy().await {
+                        Ok(p) if p == m.policy.clone().unwrap_or_default() => ctx.count("policies_read_back", 1),
+                        other => mismatch!("policy", "policy-read-differs-from-the-last-one-set", json!({"got": format!("{other:?}"), "want": format!("{:?}", m.policy)})),
+                    }
+                }
+            }
             // ---- list the documents
             90..=94 => {
                 trace.push(format!("{step}: list"));
@@ -547,6 +659,21 @@ async fn one(ctx: &mut Ctx, case: u64, rng: &mut Rng, node: &Node) {
             }
             _ => {
                 trace.push(format!("{step}: (no handle of doc{di} held: nothing done)"));
+            }
+        }
+        // Now and then, behind an accepted write: its event has arrived on every subscription of the
+        // document, and with it, in order, exactly the events of the writes accepted before it.
+        if wrote && rng.chance(1, 3) {
+            let mut bad = None;
+            for sub in docs[di].streams.iter().filter(|s| !s.frozen) {
+                match fence(sub).await {
+                    Some(Ok(())) => ctx.count("subscriptions_checked_behind_a_write", 1),
+                    Some(Err(x)) => bad = Some(x),
+                    None => ctx.count("event_of_the_last_write_not_seen_within_20s(inconclusive)", 1),
+                }
+            }
+            if let Some((got, want)) = bad {
+                mismatch!("events", "events-of-a-subscription-are-not-the-accepted-writes-in-order", json!({"got": got, "accepted_writes_since_the_subscription": want}));
             }
         }
         // A refused drop has taken a handle (what the count is afterwards the statement leaves open); if
@@ -616,7 +743,9 @@ async fn one(ctx: &mut Ctx, case: u64, rng: &mut Rng, node: &Node) {
 /// Leave the node as it was found: no handle of this history's documents open, documents gone.
 async fn cleanup(api: &iroh_docs::api::DocsApi, docs: &mut [DocM]) {
     for m in docs.iter_mut() {
-        m.streams.clear();
+        for sub in m.streams.drain(..) {
+            sub.task.abort();
+        }
         if let Some(d) = m.held.first() {
             let _ = d.leave().await;
         }
